@@ -1,9 +1,9 @@
 /-
   C06 - property theorems, part 6: all rules proved so far together (`ProvedAll` = `Proved` of C06_inv.lean, the
   node-by-node and name rules, + the four type-dependent rules of C06_typed.lean): uniform equivalence,
-  verdict, attribution and invariance under reordering of definitions. (Invariance under `Tr` - selections,
-  arguments, fragment names - is proved for `Proved` in C06_inv.lean; for the type-dependent rules it needs the
-  analogue of `nodes_tr` for `Spec.typedNodes` and is not done.)
+  verdict, attribution and invariance under reordering of definitions - each about the rules run ALONE (the chain:
+  `Props/C06_chain.lean`). (Invariance under `Tr` - selections, arguments, fragment names -: `Props/C06_inv*.lean`, all 26
+  rules in `Props/C06_inv11.lean`.)
 -/
 import PyGqlModel.Props.C06_inv
 import PyGqlModel.Props.C06_typed
@@ -140,7 +140,8 @@ theorem rule_iff_permdefs (s : SchemaD) (fx : Fixes) (d : Doc) (r : Rule) (hr : 
     · exact rule_known_directives_iff s fx d
     · exact rule_no_unused_fragments_iff_implemented s fx d
 
-/-- **verdict_iff** for the conjunction of the 26 rules -/
+/-- **verdict_iff** for the conjunction of the 26 rules, GENERAL FORM (`_partial`: the side conditions of the overlap rule
+    `OverlapHyps` are a hypothesis; discharged in `verdict_iff_all` / `verdict_iff_all_memo`) [ALONE-RUN statement: every rule visitor is run in a chain of its own, `Silent` / `SilentM` count RECORDED ERRORS only (a run that raised is not excluded); the statement about the chain `validate_ast` runs, exception flag included, is in `Props/C06_chain.lean`: `chainM_silent_iff_spec`, `verdictM_iff_spec`.] -/
 theorem verdict_iff_all_partial (s : SchemaD) (fx : Fixes) (hfx : HeadVars fx) (d : Doc) (hne : NamesNonEmpty d)
     (hov : OverlapHyps s fx d) :
     (∀ r ∈ ProvedAll, Silent s fx r d) ↔ (∀ r ∈ ProvedAll, SpecAll r s fx d) := by
@@ -157,7 +158,7 @@ theorem verdict_iff_all_partial (s : SchemaD) (fx : Fixes) (hfx : HeadVars fx) (
 theorem provedAll_complete : ∀ r ∈ Rule.all, r ∈ ProvedAll := by decide
 theorem provedAll_sub : ∀ r ∈ ProvedAll, r ∈ Rule.all := by decide
 
-/-- **valid by the specification clauses ⇒ accepted, for ALL 26 rules, without side conditions**: if the clause of
+/-- **valid by the specification clauses ⇒ accepted, for ALL 26 rules, without side conditions** [ALONE-RUN statement: every rule visitor is run in a chain of its own, `Silent` / `SilentM` count RECORDED ERRORS only (a run that raised is not excluded); the statement about the chain `validate_ast` runs, exception flag included, is in `Props/C06_chain.lean`: `spec_valid_chainM_accepts`; here the overlap rule is the UN-memoised search, which may have exhausted its fuel (`NoCrash` is not concluded).]: if the clause of
     every rule holds, NO rule visitor reports (only `HeadVars` = the code of /repo HEAD, and non-empty fragment names) -/
 theorem spec_valid_accepted_all (s : SchemaD) (fx : Fixes) (hfx : HeadVars fx) (d : Doc) (hne : NamesNonEmpty d)
     (h : ∀ r ∈ Rule.all, SpecAll r s fx d) : ∀ r ∈ Rule.all, Silent s fx r d := by
@@ -169,12 +170,15 @@ theorem spec_valid_accepted_all (s : SchemaD) (fx : Fixes) (hfx : HeadVars fx) (
   · -- the other 25 rules need no overlap side condition
     exact (rule_iff_nonoverlap s fx hfx d hne hnd r (provedAll_complete r hr) ho).mpr (h r hr)
 
-/-- **accepted ⇒ valid by all 26 clauses**, under the side conditions of the overlap rule -/
+/-- **accepted ⇒ valid by all 26 clauses**, under the side conditions of the overlap rule (`_partial`: `OverlapHyps` is a
+    hypothesis) [ALONE-RUN statement: every rule visitor is run in a chain of its own, `Silent` / `SilentM` count RECORDED ERRORS only (a run that raised is not excluded); the statement about the chain `validate_ast` runs, exception flag included, is in `Props/C06_chain.lean`: `chainM_accepted_spec_valid`.] -/
 theorem accepted_spec_valid_all_partial (s : SchemaD) (fx : Fixes) (hfx : HeadVars fx) (d : Doc) (hne : NamesNonEmpty d)
     (hov : OverlapHyps s fx d) (h : ∀ r ∈ Rule.all, Silent s fx r d) : ∀ r ∈ Rule.all, SpecAll r s fx d := fun r hr =>
   (verdict_iff_all_partial s fx hfx d hne hov).mp (fun r' hr' => h r' (provedAll_sub r' hr')) r (provedAll_complete r hr)
 
-/-- **attribution** over the 26 rules (on the rules run alone; see `attribution_partial`) -/
+/-- **attribution** over the 26 rules (on the rules run ALONE; see `attribution_partial`; `_partial`: `OverlapHyps` is a
+    hypothesis; nothing is claimed about which errors the CHAIN records - there a skipping member hides nodes from the
+    others) -/
 theorem attribution_all_partial (s : SchemaD) (fx : Fixes) (hfx : HeadVars fx) (d : Doc) (hne : NamesNonEmpty d)
     (hov : OverlapHyps s fx d) (hnd : (Spec.fragNames d).Nodup) (r : Rule) (hr : r ∈ ProvedAll)
     (hbad : ¬ SpecAll r s fx d) (hothers : ∀ r' ∈ ProvedAll, r' ≠ r → SpecAll r' s fx d) :
@@ -188,7 +192,7 @@ theorem typedNodes_perm (s : SchemaD) {d d' : Doc} (h : d.defs.Perm d'.defs) (p 
 /-- **perm_definitions** for 17 of the 26 rules (not `SingleFieldSubscriptions`, whose clause reads the fragment table; `PossibleFragmentSpreads` reads the type condition of the LAST
     definition of a fragment name, so with duplicate fragment names its predicate depends on the order). The other
     rules, under the uniqueness hypotheses they need: Props/C06_inv4.lean, C06_inv5.lean, C06_inv9.lean
-    (`perm_definitions_all25_partial`: 25 of 26). -/
+    (`perm_definitions_all25_partial`: 25 of 26). [ALONE-RUN statement, rule by rule: each rule visitor in a chain of its own; for the verdict of the chain `validate_ast` runs see `Props/C06_chain.lean: chainM_six_transformations`.] -/
 theorem perm_definitions_all_partial (s : SchemaD) (fx : Fixes) {d d' : Doc} (h : d.defs.Perm d'.defs) (r : Rule)
     (hr : r ∈ ProvedPermDefs) (hns : r ≠ .singleFieldSubscriptions) : Silent s fx r d ↔ Silent s fx r d' := by
   rw [rule_iff_permdefs s fx d r hr, rule_iff_permdefs s fx d' r hr]
